@@ -71,9 +71,26 @@ def random_histories(c, n, length):
 def run(c):
     c.build_worker()
     # 1. design-level check: the specification itself satisfies C09 on the bounded universe
-    check_cfg = CFG % (4 if c.quick else 5) + "SPECIFICATION MCSpec\nINVARIANTS WellFormed\n" \
+    check_cfg = CFG % (4 if c.quick else 5) + "SPECIFICATION MCSpec\nINVARIANTS WellFormed FlatAgrees\n" \
         "PROPERTIES OthersKept ErrorsChangeNothing AppendAddsOne RemoveDropsOne\nVIEW View\nCHECK_DEADLOCK FALSE\n"
     c.tlc("MC_SigDb", "check.cfg", files={"check.cfg": check_cfg}, name="design-check", coverage=not c.quick, timeout=1500)
+
+    # 1b. thorough: the same statements for numbers of ANY size and for EVERY well-formed pre-state (not only reachable ones
+    #     within the TLC depth): WellFormed as an inductive invariant, error/append/remove statements as action invariants (Apalache)
+    if not c.quick:
+        base = c.apalache("SigDbInd.tla", ["--cinit=ConstInit", "--init=Init", "--inv=IndInv", "--length=0"], name="apalache-base")
+        step = c.apalache("SigDbInd.tla", ["--cinit=ConstInit", "--init=IndInit", "--inv=IndInv,ErrorsChangeNothingAct,AppendAddsOneAct,RemoveDropsOneAct", "--length=1"], name="apalache-step")
+        if base != "ok" or step != "ok":
+            raise vf.FrameworkError("specification SigDbCore is not inductive: base %s, step %s" % (base, step))
+
+        def breakit(wd):
+            fn = os.path.join(wd, "SigDbCore.tla")
+            t = open(fn).read()
+            assert "!.listsize = @ + n + GuidLen]" in t
+            open(fn, "w").write(t.replace("!.listsize = @ + n + GuidLen]", "!.listsize = @ + n]"))
+        if c.apalache("SigDbInd.tla", ["--cinit=ConstInit", "--init=IndInit", "--inv=IndInv", "--length=1"], name="apalache-canary", edit=breakit) != "violation":
+            raise vf.FrameworkError("apalache canary: a specification whose append forgets the owner GUID in ListSize was found inductive")
+        c.cov["inductive_invariant"] = "SigDbCore!WellFormed + 3 action invariants, Apalache, pre-states: any database of <= 3 lists x <= 3 entries, unbounded integers; canary rejected"
 
     # 2. histories from the specification
     hs = histories_exhaustive(c, 2)
